@@ -33,8 +33,11 @@ AccessOK(m, k, o) ==
 
 \* ---------------------------------------------------------------- generator
 Ops == {[op |-> "set", key |-> k, val |-> v] : k \in Keys, v \in Vals} \cup {[op |-> "del", key |-> k] : k \in Keys}
-       \cup {[op |-> "reset"], [op |-> "recycle"]}
-Apply(m, o) == CASE o.op = "set" -> PSet(m, o.key, o.val) [] o.op = "del" -> PDel(m, o.key) [] OTHER -> <<>>
+       \cup {[op |-> "reset"], [op |-> "recycle"], [op |-> "fill", n |-> 35]}
+\* fill: n Set calls with keys f1 .. fn (more parameters than any pattern of the test-suite captures)
+RECURSIVE Fill(_, _)
+Fill(m, n) == IF n = 0 THEN m ELSE Fill(PSet(m, "f" \o ToString(n), "v"), n - 1)
+Apply(m, o) == CASE o.op = "set" -> PSet(m, o.key, o.val) [] o.op = "del" -> PDel(m, o.key) [] o.op = "fill" -> Fill(m, o.n) [] OTHER -> <<>>
 Init == ps = <<>> /\ hist = <<>>
 Next == Len(hist) < Depth /\ \E o \in Ops : ps' = Apply(ps, o) /\ hist' = Append(hist, o)
 Spec == Init /\ [][Next]_vars
